@@ -190,8 +190,7 @@ def _worker(args):
     import importlib
     prop = importlib.import_module(modname)
     st = Stats()
-    wdir = os.path.join(B.WORK, prop.ID)
-    os.makedirs(wdir, exist_ok=True)
+    wdir = B.workdir(prop.ID)
     batch = 0
     try:
         while True:
@@ -235,6 +234,7 @@ def build_name(profile, feats):
 def run_property(prop, tier, seed, budget_s=None):
     """Run one value property; returns (exit code, evidence dict)."""
     t0 = time.time()
+    os.environ.setdefault("VERIF_RUN_ID", str(os.getpid()))
     n_self = O.selftest(random.Random(seed))
     bins = []
     for profile, feats in prop.BUILDS[tier]:
@@ -348,8 +348,7 @@ def replay(prop, path):
     """Re-execute the requests of a replay file on all quick builds and judge them again."""
     reqs = [l.strip() for l in open(path) if l.strip() and not l.startswith("#")]
     st = Stats()
-    wdir = os.path.join(B.WORK, prop.ID)
-    os.makedirs(wdir, exist_ok=True)
+    wdir = B.workdir(prop.ID)
     for profile, feats in prop.BUILDS["quick"]:
         bname = build_name(profile, feats)
         binary = B.build(profile, feats)
